@@ -236,6 +236,9 @@ def _get_numbers_distance(num1, num2, max_=1, use_log_scale=False, log_scale_sim
     # getting the pairs of items during the ingore_order=True
     # calculations, we need to make the divisor of comparison very big
     # so that any 2 numbers can be chosen as pairs.
+    if not max_:
+        # a maximum of zero (cutoff_distance_for_pairs=0) leaves no room for a distance
+        return max_
     divisor = (num1 + num2) / max_
     if divisor == 0:
         return max_
